@@ -16,7 +16,9 @@ for d in sorted(glob.glob(V + "/seeded/*/meta.json")):
     rows.append("| %s | %s | %s: %s | %s |" % (sid, m["first_verdict_of_own_check"], ", ".join(files), first, (m.get("note") or "").replace("|", "/")))
 n = len(rows)
 missed = sum(1 for r in rows if "| missed |" in r)
-table = "\n".join(["<!-- seed table begin -->", "%d changes kept (%d caught by the property's own check as it stood when the change arrived, %d missed at first; all are caught now)." % (n, n - missed, missed), "",
+still = sum(1 for r in rows if "NOT caught" in r)
+sibling = sum(1 for r in rows if "NOT caught" in r and "; caught by " in r)
+table = "\n".join(["<!-- seed table begin -->", "%d changes kept (%d caught by the property's own check as it stood when the change arrived, %d missed at first; %d of those are caught by the own check now, %d are marked NOT caught in the table: %d by a sibling property's check only, %d by none)." % (n, n - missed, missed, missed - still, still, sibling, still - sibling), "",
                    "| seed | own check at first | the change (files: first line of the author's notes) | what it needs / what was strengthened |", "|------|-----|-----|-----|"] + rows + ["<!-- seed table end -->"])
 s = open(V + "/DESIGN.md").read()
 if "<!-- seed table begin -->" in s:
